@@ -9,6 +9,12 @@ from . import ncf
 from .ncf import M
 
 
+class DiagIdx:
+    """The value of numpy.diag_indices(n) / diag_indices_from(X): the index pair of the main diagonal."""
+    def __repr__(self):
+        return "<diag-indices>"
+
+
 class MExpander(Expander):
     def __init__(self, prog, mi, ci=None, selfname="self", depth=6):
         super().__init__(prog, mi, ci, selfname, depth)
@@ -25,6 +31,13 @@ class MExpander(Expander):
         e.on_if, e.on_for = self.on_if, self.on_for
         e.attr_overrides = self.attr_overrides
         return e
+
+    def param_env(self, fn, prefix="", bind=None):
+        env = super().param_env(fn, prefix=prefix, bind=bind)
+        for k in list(env):
+            if k in self.atoms:     # parameters the rule declared as matrix atoms
+                del env[k]
+        return env
 
     def need_m(self, v):
         if isinstance(v, M):
@@ -65,7 +78,13 @@ class MExpander(Expander):
             base = self.eval(node.value, env)
             if isinstance(base, (TupleV, ListV)):
                 return self.index_value(base, node.slice)
-            return self.mindex(base, node.slice)
+            ix = None
+            if isinstance(node.slice, (ast.Name, ast.Attribute, ast.Call)):
+                try:
+                    ix = self.eval(node.slice, env)
+                except Unsupported:
+                    ix = None
+            return self.mindex(base, node.slice, ix)
         if isinstance(node, ast.Call):
             return self.mcall(node, env)
         if isinstance(node, ast.Tuple):
@@ -88,7 +107,36 @@ class MExpander(Expander):
     def sym(self, name):
         raise Unsupported(f"opaque scalar `{name}` in matrix context")
 
-    def mindex(self, base, sl):
+    def exec_stmt(self, st, env):
+        # X[diag-indices] += v / -= v : only the main diagonal changes, X +- Diag(v)
+        if isinstance(st, ast.AugAssign) and isinstance(st.target, ast.Subscript) and isinstance(st.op, (ast.Add, ast.Sub)):
+            try:
+                ix = self.eval(st.target.slice, env)
+            except Unsupported:
+                ix = None
+            if isinstance(ix, DiagIdx):
+                cur = self.need_m(self.eval(st.target.value, env))
+                v = self.need_m(self.eval(st.value, env))
+                if v.rank == 0:
+                    d = M.eye().times_scalar(v)
+                elif len(v.terms) == 1 and list(v.terms.values()) == [1] and len(next(iter(v.terms))) == 1 \
+                        and next(iter(v.terms))[0][0].startswith("diagonal("):
+                    name = next(iter(v.terms))[0][0]
+                    d = M.atom("diagpart(" + name[len("diagonal("):-1] + ")", 2, True)
+                elif v.rank == 1 and len(v.terms) == 1 and list(v.terms.values()) == [1]:
+                    d = M.atom(f"diag({ncf.word_str(next(iter(v.terms)))})", 2, True)
+                else:
+                    raise Unsupported(f"diagonal update with `{ast.unparse(st.value)}`")
+                self.assign(st.target.value, cur + d if isinstance(st.op, ast.Add) else cur - d, env)
+                return
+        return super().exec_stmt(st, env)
+
+    def mindex(self, base, sl, ix=None):
+        if isinstance(ix, DiagIdx):
+            b = self.need_m(base)
+            if b.rank != 2:
+                raise Unsupported("diagonal index of a non-matrix")
+            return M.atom(f"diagonal({b})", 1)
         base = self.need_m(base)
         t = ast.unparse(sl)
         # x[0] of a length-1 vector / x[0, 0] of a 1x1 matrix: the scalar itself
@@ -190,6 +238,8 @@ class MExpander(Expander):
             return self.need_m(self.eval(node.args[0], env)).matmul(self.need_m(self.eval(node.args[1], env)))
         if short in ("eye", "identity"):
             return M.eye()
+        if short in ("diag_indices", "diag_indices_from"):
+            return DiagIdx()
         if short == "cholesky" and len(node.args) >= 1:
             # resolved callee decides the triangle: numpy.linalg.cholesky is lower; scipy.linalg.cholesky is
             # upper unless lower=True is passed
@@ -203,6 +253,9 @@ class MExpander(Expander):
             self.chol["L"] = X
             return M.atom("L", 2)
         if short == "solve_triangular":
+            extra = [k.arg for k in node.keywords if k.arg not in ("lower", "check_finite", "overwrite_b")]
+            if extra or len(node.args) != 2:
+                raise Unsupported(f"triangular solve with arguments {extra or len(node.args)}: `{ast.unparse(node)}`")
             A = node.args[0]
             B = self.need_m(self.eval(node.args[1], env))
             lower = next((k.value for k in node.keywords if k.arg == "lower"), None)
